@@ -132,6 +132,10 @@ Step(r) ==
                                 /\ IsPrefixSeq(cpFinal, cpFinal')       \* C07: final check points are append-only
       [] r.ev = "LastState"  -> RecvLastState(r.a.p, [b |-> r.a.b, ok |-> r.a.ok], Oracle(r)) /\ PipeUnchanged
       [] r.ev = "Proof"      -> /\ RecvProof(r.a.p, MsgOf(r.a), Oracle(r))
+                                \* a committed proof with a reorg section forgets the peer's latest filter hashes
+                                \* (they belong to the abandoned branch)
+                                /\ (peer'[r.a.p].pReorg # <<>> /\ (peer'[r.a.p].proved # peer[r.a.p].proved \/ peer'[r.a.p].pReorg # peer[r.a.p].pReorg))
+                                      => pf'[r.a.p].latest[2] = <<>>
                                 /\ UNCHANGED <<startOf, cpFinal, subst>>
                                 /\ CommitEffects(r.st.peer[r.a.p].pReorg, r.st.peer[r.a.p].pLastN,
                                                  r.st.tip # tip \/ r.st.tipTD # tipTD)
@@ -151,7 +155,9 @@ Step(r) ==
                                  /\ RecvCheckPoints(r.a.p, r.a.start, r.a.vals, CpReqOf(r))
       [] r.ev = "FilterHashes" -> \* when the cached hashes are complete the handler calls try_send_get_block_filters,
                                  \* which may recover the earliest matched record like the filters tick
-                                 (UNCHANGED psCore /\ PipeUnchanged) \/ (mmem' # mmem /\ FilterTick0)
+                                 /\ (UNCHANGED psCore /\ PipeUnchanged) \/ (mmem' # mmem /\ FilterTick0)
+                                 \* an honest answer to the client's own request is never punished
+                                 /\ r.a.kind = "honest" => out'.ban = {}
       [] r.ev = "Filters"    -> /\ RecvFilters(r.a.p, [start |-> r.a.start, fs |-> r.a.fs, hs |-> r.a.hs])
                                 /\ (subst' # subst => PrintT(<<"KNOWN-FINDING", "KF-C06-blockhash", subst' \ subst>>))
       [] r.ev = "BlocksProof" -> BlocksProofEv(r.a)
